@@ -279,6 +279,9 @@ var zzTemplates = []struct {
 	{"HEAD /g HTTP/1.1\r\nHost: h\r\n\r\n", "HEAD", "/g", "", false},
 	{"POST /h HTTP/1.1\r\nHost: h\r\nExpect: 100-continue\r\nTransfer-Encoding: chunked\r\n\r\n2\r\nhi\r\n0\r\n\r\n", "POST", "/h", "hi", false},
 	{"POST /i HTTP/1.0\r\nHost: h\r\nConnection: keep-alive\r\nContent-Length: 1\r\n\r\nx", "POST", "/i", "x", false},
+	// methods that usually have no body, with one: framing is by Content-Length / chunked all the same
+	{"GET /j HTTP/1.1\r\nHost: h\r\nContent-Length: 2\r\n\r\nhi", "GET", "/j", "hi", false},
+	{"HEAD /k HTTP/1.1\r\nHost: h\r\nTransfer-Encoding: chunked\r\n\r\n2\r\nhi\r\n0\r\n\r\n", "HEAD", "/k", "hi", false},
 }
 
 // zzBodyOffsets: where the body bytes of template t sit in its wire text.
@@ -302,6 +305,10 @@ func zzBodyOffsets(t int) []int {
 		return []int{he + 3, he + 4}
 	case 8:
 		return []int{he}
+	case 9:
+		return []int{he, he + 1}
+	case 10:
+		return []int{he + 3, he + 4}
 	}
 	return nil
 }
